@@ -26,5 +26,4 @@ def run(ctx):
 
 
 def replay(obj):
-    r = isolation.check(0, 5, False)
-    return None
+    return isolation.replay_case(obj["case"])
